@@ -449,7 +449,21 @@ fn part_b(rng: &mut Rng, n: u64, out: &mut Out) {
                 handler_case(out, &format!("handler-{}-honest", i), &["handler", "honest", shape], &mut c, peer, &base, true, true, tau, &descr_base);
             } else {
                 let (r, what) = mutate_response(rng, &base, &chain, &fork);
-                let same = r.message().as_slice() == base.message().as_slice();
+                // identical up to fields nothing authenticates: the parent chain root of a header that, before
+                // MMR activation, does not commit to one (the stored headers are the same either way)
+                let same = r.message().as_slice() == base.message().as_slice() || {
+                    let strip = |vh: &packed::VerifiableHeader| -> Vec<u8> {
+                        let n: u64 = vh.header().raw().number().unpack();
+                        if (n as usize) < chain.headers.len() && chain.headers[n as usize].hash() == vh.header().calc_header_hash() && !chain.has_root(n) {
+                            vh.clone().as_builder().parent_chain_root(Default::default()).build().as_slice().to_vec()
+                        } else { vh.as_slice().to_vec() }
+                    };
+                    r.headers.len() == base.headers.len()
+                        && r.headers.iter().zip(base.headers.iter()).all(|(a, b)| strip(a) == strip(b))
+                        && strip(&r.last) == strip(&base.last)
+                        && r.proof.len() == base.proof.len()
+                        && r.proof.iter().zip(base.proof.iter()).all(|(a, b)| a.as_slice() == b.as_slice())
+                };
                 handler_case(out, &format!("handler-{}-m{}", i, m), &["handler", "mutated", what, shape], &mut c, peer, &r, false, same, tau,
                     &format!("{}; mutation: {}", descr_base, what));
             }
